@@ -267,10 +267,18 @@ func genStep(r *vh.Rand, scenario bool, thorough bool, idx int, prevTok string, 
 	return fmt.Sprintf("%s %s %d %d %s %s %s %s", beh, conn, status, bodyok, bf, vh.HexS(tok), pp, tmpl), tok, plain
 }
 
+// gun options: mostly defaults, otherwise any combination of dump / trace / debug logging / answlog filter
+func genOpts(r *vh.Rand) string {
+	if r.Chance(1, 3) {
+		return "d0t0g0a-"
+	}
+	return fmt.Sprintf("d%st%sg%sa%s", vh.B(r.Bool()), vh.B(r.Bool()), vh.B(r.Chance(1, 3)), r.Pick([]string{"-", "-", "all", "warning", "error"}))
+}
+
 func genEngH2(r *vh.Rand) string {
 	n := r.Range(1, 6)
 	mode := r.PickInt([]int{0, 0, 0, 0, 0, 1, 2})
-	line := fmt.Sprintf("eng http2 0 1 %d 1 %d", mode, n)
+	line := fmt.Sprintf("eng http2 0 1 %d %s 1 %d", mode, genOpts(r), n)
 	for i := 0; i < n; i++ {
 		beh, conn, status, bodyok, body := "status", "ok", 200, 1, "ok"
 		switch k := r.Intn(10); {
@@ -308,7 +316,7 @@ func genEng(r *vh.Rand, thorough bool) string {
 		iters = r.Range(1, 3)
 	}
 	refused := r.Chance(1, 12)
-	line := fmt.Sprintf("eng %s %s %d %s %d %d", gun, vh.B(r.Chance(2, 3)), inst, vh.B(refused), iters, n)
+	line := fmt.Sprintf("eng %s %s %d %s %s %d %d", gun, vh.B(r.Chance(2, 3)), inst, vh.B(refused), genOpts(r), iters, n)
 	prevTok, prevPlain := "", false
 	for i := 0; i < n; i++ {
 		var st string
